@@ -178,7 +178,7 @@ def programs(tier):
     bodies = [list(t) for n in range(0, maxlen + 1) for t in itertools.product(CHUNK_ALPHA, repeat=n)]
     out = []
     for status in ("200 OK", "404 Not Found", "204 No Content", "304 Not Modified", "100 Continue"):
-        for delivery in ("list", "gen", "write", "write+iter", "write+list", "fw", "fw-noseek", "fw-offset"):
+        for delivery in ("list", "gen", "lazy", "write", "write+iter", "write+list", "fw", "fw-noseek", "fw-offset"):
             for chunks in bodies:
                 total = sum(len(c) for c in chunks)
                 for cl in ("none", "exact", "+1", "-1"):
@@ -231,7 +231,7 @@ def cases(tier):
             if req["method"] == "POST" and tier == "quick" and prog["delivery"] not in ("list", "fw"):
                 continue
             for depth in (1, 2):
-                if depth == 2 and (tier == "thorough" or prog["delivery"] in ("fw", "fw-offset", "list", "write+list")) and not prog.get("exc"):
+                if depth == 2 and (tier == "thorough" or prog["delivery"] in ("fw", "fw-offset", "list", "lazy", "write+list")) and not prog.get("exc"):
                     probe = dict(method="GET", version=req["version"], conn="keep-alive" if req["version"] == "1.0" else None)
                     yield dict(requests=[req, probe], programs=[prog, PROBE], logsock=True, slow=7)
                 for logsock in ((True, False) if prog.get("exc") else (True,)):
